@@ -3,6 +3,7 @@ package main
 import (
 	"encoding/json"
 	"fmt"
+	"strings"
 	"time"
 	"unsafe"
 
@@ -301,6 +302,30 @@ func newCache(cfg Cfg, s *Scenario) cacheAPI {
 		c, err = newTyped(cfg, func(k int) string { return fmt.Sprintf("key-%d", k) }, func(k string) int { var n int; fmt.Sscanf(k, "key-%d", &n); return n })
 	case "bytes":
 		c, err = newTyped(cfg, func(k int) []byte { return []byte(fmt.Sprintf("key-%d", k)) }, func(k []byte) int { var n int; fmt.Sscanf(string(k), "key-%d", &n); return n })
+	case "longstring-tail", "longstring-head", "longbytes-tail":
+		// adversarial string keys: 3000 bytes long, all keys equal except for a few bytes at the
+		// very end (tail) or at the very beginning (head)
+		pad := strings.Repeat("ristretto-key-padding/", 140)[:3000]
+		mk := func(k int) string {
+			if cfg.KeyType == "longstring-head" {
+				return fmt.Sprintf("%04d", k) + pad
+			}
+			return pad + fmt.Sprintf("%04d", k)
+		}
+		unmk := func(s string) int {
+			var n int
+			if cfg.KeyType == "longstring-head" {
+				fmt.Sscanf(s[:4], "%d", &n)
+			} else {
+				fmt.Sscanf(s[len(s)-4:], "%d", &n)
+			}
+			return n
+		}
+		if cfg.KeyType == "longbytes-tail" {
+			c, err = newTyped(cfg, func(k int) []byte { return []byte(mk(k)) }, func(b []byte) int { return unmk(string(b)) })
+		} else {
+			c, err = newTyped(cfg, mk, unmk)
+		}
 	default:
 		panic("bad key type " + cfg.KeyType)
 	}
